@@ -46,5 +46,29 @@ Fixpoint row_sum (l : list (cnode * cnode * csign)) (g : K) (v : cnode -> K) (r 
   | [] => 0
   | (r', c, s) :: t => (if cnode_eqb r r' then sgn s g * v c else 0) + row_sum t g v r
   end.
+
+(* one time step of the loop  source Vs - resistor R - reactive component (companion g, ve) - ground:
+   KVL  Vs - v = R i  together with the companion relation  v = i / g + ve.  The step size enters
+   only through g and ve, which are recomputed from dt_k at EVERY step. *)
+Definition series_step (g ve R Vs : K) : K * K :=
+  let i := (Vs - ve) / (R + 1 / g) in (ve + i / g, i).
+Lemma series_step_sound (g ve R Vs : K) : g <> 0 -> R + 1 / g <> 0 ->
+  let '(v, i) := series_step g ve R Vs in v = i / g + ve /\ Vs - v = R * i.
+Proof. intros Hg Hr.
+  assert (H : R * g + 1 <> 0).
+  { intro E. apply Hr. transitivity ((R * g + 1) / g); [field; assumption | rewrite E; field; assumption]. }
+  unfold series_step. split; field; nz. Qed.
+
+(* the whole run over a list of step sizes, from the all-zero state Lcapy starts with *)
+Fixpoint series_run (geq : K -> K -> K) (veq : K -> K -> K -> K -> K -> K) (X R Vs : K)
+         (dts : list K) (st : K * K) : list (K * K) :=
+  match dts with
+  | [] => []
+  | dt :: r =>
+      let st' := series_step (geq X dt) (veq X dt (fst st) 0 (snd st)) R Vs in
+      st' :: series_run geq veq X R Vs r st'
+  end.
 End Sim.
 Arguments row_sum {K}.
+Arguments series_step {K}.
+Arguments series_run {K}.
